@@ -90,6 +90,14 @@ def run(seed):
         if len(edges) >= 2:
             hs.append((np_model.histogram(vals, bins=edges)[0], np.histogram(vals, bins=edges)[0]))
     check("numpy.histogram(explicit edges)", hs)
+    hr = []
+    for _ in range(40):
+        data = [rng.randint(-2, 9) / rng.choice([1, 2]) for _ in range(rng.randint(0, 8))]
+        lo_ = rng.randint(-1, 3)
+        hi_ = lo_ + rng.randint(0, 6) / rng.choice([1, 2])
+        n = rng.randint(1, 5)
+        hr.append((np_model.histogram(np_model.array(data), bins=n, range=(lo_, hi_))[0].tolist(), np.histogram(np.array(data, dtype=float), bins=n, range=(lo_, hi_))[0].tolist()))
+    check("numpy.histogram(number of bins + range)", hr)
     check("numpy unicode dtype truncation", [(np_model.asarray(["abc", "de"], dtype=np.asarray(["x", "yy"]).dtype), np.asarray(["abc", "de"], dtype=np.asarray(["x", "yy"]).dtype))])
     check("numpy.unique(axis=0)", [(list(np_model.unique(np_model.array(r), return_counts=True, axis=0)), list(np.unique(np.array(r), return_counts=True, axis=0)))
                                     for r in ([[0, 1], [0, 1], [1, 0]], [[1, 1]], [[2, 0], [0, 2], [2, 0]])])
@@ -199,6 +207,19 @@ def run(seed):
         except ValueError:
             r2 = "ValueError"
         acases.append((m2, r2))
+    for idx1, idx2 in [([2, 0, 1], None), ([2, 0, 1], [0, 1, 2]), ([0, 1, 2], [0, 1, 2]), ([5, 7, 9], [0, 1, 2]), ([1, 0, 2], [2, 1, 0]), (["b", "a", "c"], ["a", "b", "c"])]:
+        v1, v2 = ["x", "y", "z"], [10, 20, 30]
+        try:
+            md = pd_model.DataFrame(dict(node=pd_model.Series(v1, index=idx1), cluster=(v2 if idx2 is None else pd_model.Series(v2, index=idx2))))
+            m_out = [list(md._index), _nn(md._cols["node"]), _nn(md._cols["cluster"])]
+        except ValueError:
+            m_out = "ValueError"
+        try:
+            rd = pd.DataFrame(dict(node=pd.Series(v1, index=idx1, dtype=object), cluster=(v2 if idx2 is None else pd.Series(v2, index=idx2))))
+            r_out = [list(rd.index), _nn(list(rd["node"])), _nn([None if x != x else int(x) for x in rd["cluster"]])]
+        except ValueError:
+            r_out = "ValueError"
+        acases.append((m_out, r_out))
     check("pandas setitem alignment / from_dict", acases)
     return res
 
